@@ -106,8 +106,21 @@ def cases(tier, seed=0):
                        'viterbi_weight': kind == 'viterbi' and not g['recursive'] and has_derivation_everywhere(g['spec']) and not grammars.features(g['spec'])['duplicate_external']
                        and sum(math.prod(s) for s in grammars.weight_shapes(g['spec']).values()) <= 8})
     # static sharding (cases[shard::n]): spread the expensive cases (arg-max forking, many presentations) over the shards
-    cost = lambda c: (c['semiring'] == 'viterbi') * 4 + (c['method'] == 'fixed-point' and c['recursive']) * 2 + len(c['spec']['rules'])
+    def cost(c):
+        # rough number of presentations x size of one evaluation
+        rules = c['spec']['rules']
+        nr = len(rules)
+        rp = min(math.factorial(nr), 24 if 'concrete' in c else 6)
+        ep = math.factorial(len(rules[0]['edges'])) if rules else 1
+        nunk = sum(math.prod(s) for s in grammars.weight_shapes(c['spec']).values())
+        w = rp * ep * 2 ** min(nr, 2) * 4 * max(nunk, 1)
+        return w * (3 if c['semiring'] == 'viterbi' else 1) * (2 if c.get('grad') else 1) * (3 if c['recursive'] and c['method'] == 'fixed-point' else 1)
     cs.sort(key=cost, reverse=True)
+    # static sharding takes cases[shard::16], and the first case of every shard runs under the function profiler (slow): put the 16
+    # cheapest cases first, then the rest from the most expensive down
+    n = 16
+    if len(cs) > 2 * n:
+        cs = cs[-n:] + cs[:-n]
     return cs
 
 
@@ -187,7 +200,7 @@ def main():
     if a.replay:
         common.do_replay(PID, a.replay)
     t0 = time.time()
-    merged = lib.merge(lib.run_pool('c12', a.tier, a.seed, case_timeout=900))
+    merged = lib.merge(lib.run_pool('c12', a.tier, a.seed, case_timeout=900, profile_first=1))
     code = lib.finish(
         PID, a.tier, a.seed, 'other', merged, t0,
         rule='case = (grammar, semiring, method); inside a case the presentation is a vector of solver variables: permutation of the rule insertion order (all), of the edge insertion order of the first two rules (all), reversal of the node order of every rule, '
